@@ -51,6 +51,23 @@ PROPS["C07"] = {
     "assumptions": ["task interleavings: independence rests on ownership + the pinned field list of SharedState", "a path that escalates with a connection-scoped code yet returns a stream-level error is not excluded (mutant B23)"],
 }
 
+PROPS["C08"] = {
+    "technique": "Verus step contracts on the extracted shutdown/accept/GOAWAY functions over ghost transport logs; Kani for the StreamId arithmetic",
+    "text": "Unbounded deductive proof of step contracts from an arbitrary well-formed pre-state: the GOAWAY ids written to the control stream never increase over any history of shutdown(n) calls (state invariant over the ghost sent log + memo); every stream taken from the transport with id >= the last identifier sent is stopped and reset with H3_REQUEST_REJECTED and never returned, every stream below it is returned untouched; every id handed out is below every identifier sent; the client folds received GOAWAYs: larger id or non-request id ⇒ H3_ID_ERROR, otherwise limit stored and closing set; send_request opens no stream once closing.",
+    "note": "Transport modelled by its weakest contract with ghost logs (arrival in any order); tokio mpsc as ghost FIFO; closing flag monotone; derived Ord/Eq/Hash on the id types compare the u64 field (axiom); StreamId + usize from Kani c16_streamid_add_saturates; await-erasure R4 (a dropped shutdown future after the memo was lowered is noted, not excluded); callee contracts assumed from units conn_error, control, frames.",
+    "design_ref": "§4 C08",
+    "trusted_base": COMMON_TB + ["quic trait contract with ghost logs, tokio mpsc FIFO shim, closing flag shim (inc/goaway_common.rs)", "axiom_id_derives (derived Ord/Eq/Hash)", "Kani c16_streamid_add_saturates, c16_streamid_fields"],
+    "assumptions": ["task interleavings: &mut self exclusivity across awaits (R4)", "initial state of the server Connection (built in the builder) is well-formed"],
+}
+PROPS["C09"] = {
+    "technique": "Verus ownership obligations O1-O6 on the request-end notifier (ghost multiset of live notifiers + channel FIFO)",
+    "text": "Unbounded deductive proof of the safety half and of coverage: accepting a stream records its id; the value returned by accept() owns exactly one drop-notifier for that id on this connection's channel (ownership derived from the real struct fields on every run); Drop sends the id; poll_requests_completion removes exactly the received ids and answers Ready iff the channel is closed and drained or nothing is outstanding; Ok(None) only then and only after a shutdown was signalled. 'As soon as' (liveness) is assumed via tokio's wake contract and Rust's drop semantics.",
+    "note": "tokio mpsc as ghost FIFO with a rewoken flag; every owned value is eventually dropped (Rust semantics); RequestStream::split sharing the Arc and ResolvedRequest::resolve are not under contract in this unit; h3-webtransport's accept path is out of scope.",
+    "design_ref": "§4 C09",
+    "trusted_base": COMMON_TB + ["tokio mpsc FIFO shim", "Rust drop semantics (every owned value is dropped or explicitly forgotten; no mem::forget in the unit)"],
+    "assumptions": ["fairness: a registered waker leads to a re-poll", "drop timing"],
+}
+
 NOT_YET = "unit not built yet in this round (see DESIGN §8 order of work)"
 for _id in ["C01", "C02", "C03", "C04", "C05", "C06", "C07", "C08", "C09", "C10", "C11", "C12", "C13", "C14", "C15", "C17", "C18", "C19"]:
     PROPS.setdefault(_id, {"not_applicable": NOT_YET})
